@@ -487,6 +487,7 @@ package soyhtml
 //@   at call (*state).walk#0 assert[callee-binds-in-owned-frame;C08] scopeOK(arg0.context)
 //@   requires[frames-allocated;C02] forall(i, 0, len(s.context), s.context[i].vars < allocmark())
 //@   loop 0
+//@     invariant[params-bound-so-far;C02] nset == rangeindex + 1 && nset <= len(node.Params)
 //@     invariant[cd-frames-allocated;C02] forall(i, 0, len(callData), callData[i].vars < allocmark())
 //@     invariant[cd-top-distinct;C02] forall(i, 0, len(callData) - 1, callData[i].vars != callData[len(callData)-1].vars)
 //@     invariant[cd-alldata-len;C02] node.AllData ==> 1 <= nad && nad <= len(s.context) && len(callData) == nad + 1
@@ -497,6 +498,9 @@ package soyhtml
 //@     invariant[cd-top-fresh;C02] len(callData) >= 1 && fresh(callData[len(callData)-1].vars)
 //@     invariant[cd-array-fresh;C02] fresh(callData) && base(callData) != base(s.context)
 //@   ghost nad int = 0
+//@   ghost nset int = 0
+//@   at call (scope).set#* after set nset = nset + 1
+//@   at call (*state).walk#0 assert[every-explicit-param-is-bound;C02] nset == len(node.Params)
 //@   ghost dm data.Map = nil
 //@   at call (scope).alldata#0 after set nad = len(res)
 //@   at call (scope).alldata#0 after assert[nad-is-innermost-template-entry;C02] 1 <= len(res) && len(res) <= len(s.context) && s.context[len(res)-1].entered && forall(j, len(res), len(s.context), !s.context[j].entered)
